@@ -487,6 +487,7 @@ class ModuleTranslator:
         self.items = []       # (coq term, line, synthetic, description)
         self.emitted = set()
         self.stack = []
+        self.leaf_mismatch = []   # (type name, documented value type, implementation's value type)
 
     # -- types of leaves (observed from the front end's own function) ----------
     def enum_id(self, canonical_name):
@@ -494,17 +495,36 @@ class ModuleTranslator:
         return self.enums.setdefault(key, len(self.enums))
 
     def ty_of_typedef(self, td):
+        """The documented value type of a field of type td, computed HERE (not by the implementation):
+        externals marked [is_integer: true] are integers, the prelude's Flag is boolean, an enum has
+        its own enum type, everything else (struct, bits, other externals) has no value.  The
+        implementation's answer is compared with it and any difference is reported by the caller."""
+        cn = td.name.canonical_name
+        is_int = False
+        for a in td.attribute:
+            if (a.name.text == "is_integer" and not a.is_default and not (a.back_end is not None and a.back_end.text)
+                    and a.value.has_field("expression") and a.value.expression.which_expression == "boolean_constant"):
+                is_int = bool(a.value.expression.boolean_constant.value)
+        if td.has_field("external") and is_int:
+            mine = "TInt"
+        elif td.has_field("external") and cn.module_file == "" and list(cn.object_path) == ["Flag"]:
+            mine = "TBool"
+        elif td.has_field("enumeration"):
+            mine = "(TEnum %d)" % self.enum_id(cn)
+        else:
+            mine = "TOpaque"
         et = type_check.unbounded_expression_type_for_physical_type(td)
         w = et.which_type
-        if w == "integer":
-            return "TInt"
-        if w == "boolean":
-            return "TBool"
-        if w == "opaque":
-            return "TOpaque"
+        impl = {"integer": "TInt", "boolean": "TBool", "opaque": "TOpaque"}.get(w)
         if w == "enumeration":
-            return "(TEnum %d)" % self.enum_id(et.enumeration.name.canonical_name)
-        raise TranslatorError("unknown expression type %r" % w)
+            impl = "(TEnum %d)" % self.enum_id(et.enumeration.name.canonical_name)
+        if impl is None:
+            raise TranslatorError("unknown expression type %r" % w)
+        if impl != mine:
+            m = ((cn.module_file or "<prelude>") + ":" + ".".join(cn.object_path), mine, impl)
+            if m not in self.leaf_mismatch:
+                self.leaf_mismatch.append(m)
+        return mine
 
     def ty_of_physical(self, type_ir):
         if not type_ir.has_field("atomic_type"):
@@ -750,6 +770,7 @@ def _analyse_c13(args):
         mt = ModuleTranslator(ir).translate()
         out["coq"] = mt.coq_input()
         out["items"] = [(l, s, w) for _, l, s, w in mt.items]
+        out["leaf_mismatch"] = list(mt.leaf_mismatch)
     except OutOfModel as ex:
         out["oom"] = str(ex)
     except TranslatorError as ex:
